@@ -299,10 +299,13 @@ class SoftTTLCache(Entity):
             self._coalesced_requests += 1
             # Wait for backing store latency (simulating waiting for the refresh)
             yield self._backing_store.read_latency
-            # Check if the refresh completed
-            if key in self._cache:
-                return self._cache[key].value
-            return None
+            # Serve the refreshed entry only if it is still within the hard TTL;
+            # if the refresh stored nothing (or the entry was evicted meanwhile)
+            # fall through to a blocking fetch instead of serving an expired
+            # entry or reporting an existing key as missing.
+            entry = self._cache.get(key)
+            if entry is not None and entry.is_valid(self.now, self._hard_ttl):
+                return entry.value
 
         # Fetch from backing store (blocking)
         value = yield from self._backing_store.get(key)
